@@ -43,18 +43,29 @@ def gen_spec(prop, rng, tier):
         wl = gen.gen_workload(rng, profile='boundary')
     elif prop in ('C02', 'C10') and rng.random() < (0.008 if tier == 'quick' else 0.03):
         wl = gen.gen_workload(rng, profile='broom')        # guide trees 50-90 levels deep with forks at many depths
-    if prop == 'C01' and rng.random() < 0.15 and len(wl['seqs']) >= 3:
+    myriad = prop == 'C01' and rng.random() < (0.0002 if tier == 'quick' else 0.001)
+    if myriad:
+        # more sequences than a 16-bit index holds (the property text says "2..thousands of sequences"; the count fields
+        # of the implementation are ints): very short records so that one run stays under half a minute
+        n = rng.randint(65530, 66100)
+        alpha = rng.choice([gen.DNA, gen.PROT])
+        wl = {'kind': 'dna' if alpha == gen.DNA else 'protein', 'profile': 'myriad', 'shape': 'random', 'names': ['s%d' % i for i in range(n)],
+              'seqs': [gen.rand_seq(rng, alpha, rng.randint(6, 9)) for _ in range(n)], 'type': gen.T_UNDEF, 'gpo': -1.0, 'gpe': -1.0, 'tgpe': -1.0}
+        nruns = 1
+    if prop == 'C01' and rng.random() < 0.15 and len(wl['seqs']) >= 3 and not myriad:
         # zero-length input sequences: "one row per NON-EMPTY input sequence, in input order"
         for _ in range(rng.randint(1, 3)):
             k = rng.randrange(len(wl['seqs']) + 1)
             wl['seqs'].insert(k, ''); wl['names'].insert(k, 'empty%d_%d' % (k, rng.randrange(1000)))
         wl['names'] = ['%s.%d' % (n.split('.')[0][:18], i) for i, n in enumerate(wl['names'])]
-    big = wl['profile'] in ('kmeans', 'hirsch', 'medium', 'large', 'multilong', 'many', 'broom') or (wl['profile'] == 'boundary' and len(wl['seqs']) * max(len(x) for x in wl['seqs']) > 20000)
+    big = wl['profile'] in ('kmeans', 'hirsch', 'medium', 'large', 'multilong', 'many', 'broom', 'myriad') or (wl['profile'] == 'boundary' and len(wl['seqs']) * max(len(x) for x in wl['seqs']) > 20000)
     if wl['profile'] == 'large' or (wl['profile'] == 'broom' and tier == 'quick'):
         nruns = min(nruns, 2)
     if prop == 'C01':
         entry = rng.choice(['A', 'LIB', 'LIB', 'CLI', 'CLI_STDOUT'])
         fmt = rng.choice(['fasta', 'msf', 'clu'])
+        if myriad:
+            entry = rng.choice(['LIB', 'CLI']); fmt = 'fasta'
     elif prop == 'C02':
         entry = rng.choice(['A', 'LIB', 'LIB', 'CLI'])
         fmt = rng.choice(['fasta', 'fasta', 'clu', 'msf'])
@@ -75,10 +86,10 @@ def gen_spec(prop, rng, tier):
         v = rng.choices(['plain', 'preempt', 'asan'] if tier == 'thorough' else ['plain', 'preempt'], [5, 4, 2] if tier == 'thorough' else [5, 4])[0]
         if big and v == 'asan' and rng.random() < 0.5:
             v = 'plain'
-        if wl['profile'] == 'large':
+        if wl['profile'] in ('large', 'myriad'):
             v = 'plain'
         w = gen.gen_world(rng, preempt=(v == 'preempt'))
-        if wl['profile'] == 'large':
+        if wl['profile'] in ('large', 'myriad'):
             w['wall_limit'] = 120; w['p_hook_yield'] = min(w.get('p_hook_yield', 0), 2000)
         if clock_free:
             w['clock_epoch'] = rng.randrange(0, 4102444800); w['clock_step'] = rng.choice([0, 1, 3600])
@@ -97,7 +108,7 @@ def plans_of(spec):
     wl = spec['wl']
     quiet = spec.get('quiet', 1)
     rw = dict(spec['ref_world']); rw['c10'] = 1
-    if wl['profile'] == 'large':
+    if wl['profile'] in ('large', 'myriad'):
         rw['wall_limit'] = 120
     p = plans.base_plan('ref', rw)
     ix = plans.add_entry(p, wl, spec['entry'], spec['fmt'], spec['ref_nthreads'], spec['repeat'], quiet)
@@ -105,9 +116,10 @@ def plans_of(spec):
     rw2 = dict(rw); rw2['junk_seed'] = spec['ref2_junk']
     if spec.get('clock_varies'):
         rw2['clock_epoch'] = (rw.get('clock_epoch', 0) * 7 + 12345) % 4102444800
-    p = plans.base_plan('ref2', rw2)
-    plans.add_entry(p, wl, spec['entry'], spec['fmt'], spec['ref_nthreads'], spec['repeat'], quiet)
-    out.append(('ref2', 'serial', p, ix))
+    if wl['profile'] != 'myriad':          # (the 66 000-sequence scenario keeps to the reference and one schedule)
+        p = plans.base_plan('ref2', rw2)
+        plans.add_entry(p, wl, spec['entry'], spec['fmt'], spec['ref_nthreads'], spec['repeat'], quiet)
+        out.append(('ref2', 'serial', p, ix))
     for k, r in enumerate(spec['runs']):
         w = dict(r['world']); w['c10'] = 1
         p = plans.base_plan('run%d' % k, w, r.get('dec'), r.get('pre'))
